@@ -6,8 +6,9 @@
    connection and of every mailbox.  The checker replays the labels on the
    model (System.step) and compares after every step.
 
-     chk_trace c = true  iff  every label is admissible (label_ok) and the model
-                              reproduces every observation
+     chk_trace c = true  iff  every label is admissible (label_ok), the model
+                              reproduces every observation, and the model's client
+                              (System.cfs_step) believes what the harness' shadow client does
      first_bad c          index of the first step that differs (for reports)
      model_out c          the model's responses, for diagnosis *)
 From PV Require Import Base.Prelude Store.Base Store.Flags Store.ModSeq Store.Mailbox
@@ -79,16 +80,17 @@ Definition sel_obs_eqb (a b : sel_obs) : bool :=
      | Some _, None => false
      end.
 
-(* observed mailbox: (_max_uid, [(uid, flags, recent)] in dict order, highest,
-   optionally the log: (_uids sorted, _updates sorted (sets sorted), _expunges likewise,
-   _mod_seqs_order)) *)
+(* observed mailbox: (_max_uid (maildir: next_uid - 1), [(uid, flags, recent)] in dict order
+   (maildir: uidlist order, recent = the file is in new/), optionally highest (dict only),
+   optionally the log (dict only): (_uids sorted, _updates sorted (sets sorted), _expunges
+   likewise, _mod_seqs_order)) *)
 Definition log_obs : Type := list (N * N) * list (N * list N) * list (N * list N) * list N.
-Definition box_obs : Type := N * list (N * flags * bool) * N * option log_obs.
+Definition box_obs : Type := N * list (N * flags * bool) * option N * option log_obs.
 
 Definition box_obs_of (b : mbox) : box_obs :=
   let lg := mb_log b in
   (mb_max_uid b, map (fun m => (m_uid m, m_flags m, m_recent m)) (mb_msgs b),
-   ms_highest lg,
+   Some (ms_highest lg),
    Some (asort (ms_uids lg),
          asort (map (fun kv => (fst kv, nsort (snd kv))) (ms_updates lg)),
          asort (map (fun kv => (fst kv, nsort (snd kv))) (ms_expunges lg)),
@@ -100,7 +102,12 @@ Definition msg_obs_eqb (a b : N * flags * bool) : bool :=
 Definition box_obs_eqb (a b : box_obs) : bool :=
   let '(mx, ms, h, lg) := a in
   let '(mx', ms', h', lg') := b in
-  (mx =? mx')%N && eqb_list msg_obs_eqb ms ms' && (h =? h')%N
+  (mx =? mx')%N && eqb_list msg_obs_eqb ms ms'
+  && match h', h with
+     | None, _ => true
+     | Some x', Some x => (x =? x')%N
+     | Some _, None => false
+     end
   && match lg', lg with
      | None, _ => true
      | Some (u', up', ex', o'), Some (u, up, ex, o) =>
@@ -111,7 +118,10 @@ Definition box_obs_eqb (a b : box_obs) : bool :=
 Record step_obs := MkObs {
   ob_out : list resp;                  (* responses written to the acting connection *)
   ob_sels : list (N * option sel_obs); (* every connection of the trace: its selection *)
-  ob_boxes : list (N * box_obs) }.     (* every mailbox *)
+  ob_boxes : list (N * box_obs);       (* every mailbox *)
+  ob_bel : list (N * list (N * flags)) }.
+    (* what the harness' shadow client of a connection believes: [(uid, flags without \Recent)]
+       for the messages of its view whose flags it has been told *)
 
 Definition chk_sels (sy : sys) (l : list (N * option sel_obs)) : bool :=
   forallb (fun so : N * option sel_obs =>
@@ -121,51 +131,66 @@ Definition chk_boxes (sy : sys) (l : list (N * box_obs)) : bool :=
              match aget (fst bo) (sy_boxes sy) with
              | Some b => box_obs_eqb (box_obs_of b) (snd bo)
              | None => false end) l.
+(* the model's client (System.cfs_step) holds the same flags as the harness' shadow client *)
+Definition norec (f : flags) : flags := fs_diff (fs_of f) [F_RECENT].
+Definition chk_bel (cfs : N -> cflags) (l : list (N * list (N * flags))) : bool :=
+  forallb (fun so : N * list (N * flags) =>
+             forallb (fun uf : N * flags =>
+                        match aget (fst uf) (cfs (fst so)) with
+                        | Some f => fs_eqb (norec f) (norec (snd uf))
+                        | None => false end) (snd so)) l.
 
-Definition chk_step (sy : sys) (lo : label * step_obs) : sys * bool :=
+Definition cstate : Type := sys * (N -> cflags).
+
+Definition chk_step (st : cstate) (lo : label * step_obs) : cstate * bool :=
+  let '(sy, cfs) := st in
   let '(l, o) := lo in
   let '(sy', out) := step sy l in
-  (sy', label_ok sy l && eqb_list resp_eqb out (ob_out o)
-        && chk_sels sy' (ob_sels o) && chk_boxes sy' (ob_boxes o)).
+  let cfs' := cfs_next sy l sy' out cfs in
+  ((sy', cfs'), label_ok sy l && eqb_list resp_eqb out (ob_out o)
+        && chk_sels sy' (ob_sels o) && chk_boxes sy' (ob_boxes o) && chk_bel cfs' (ob_bel o)).
 
 Definition trace_case : Type := list label * list (label * step_obs).
 
-Fixpoint chk_steps (sy : sys) (l : list (label * step_obs)) : bool :=
+Fixpoint chk_steps (st : cstate) (l : list (label * step_obs)) : bool :=
   match l with
   | [] => true
-  | lo :: r => let '(sy', ok) := chk_step sy lo in ok && chk_steps sy' r
+  | lo :: r => let '(st', ok) := chk_step st lo in ok && chk_steps st' r
   end.
-Definition chk_trace (c : trace_case) : bool := chk_steps (exec sys_empty (fst c)) (snd c).
+Definition chk_trace (c : trace_case) : bool := chk_steps (cfs_exec cfs_start (fst c)) (snd c).
 
-Fixpoint first_bad_from (i : nat) (sy : sys) (l : list (label * step_obs)) : option nat :=
+Fixpoint first_bad_from (i : nat) (st : cstate) (l : list (label * step_obs)) : option nat :=
   match l with
   | [] => None
-  | lo :: r => let '(sy', ok) := chk_step sy lo in
-               if ok then first_bad_from (S i) sy' r else Some i
+  | lo :: r => let '(st', ok) := chk_step st lo in
+               if ok then first_bad_from (S i) st' r else Some i
   end.
-Definition first_bad (c : trace_case) : option nat := first_bad_from 0 (exec sys_empty (fst c)) (snd c).
+Definition first_bad (c : trace_case) : option nat := first_bad_from 0 (cfs_exec cfs_start (fst c)) (snd c).
 
 (* diagnosis: what the model answers and holds after the first n steps *)
-Definition model_state (c : trace_case) (n : nat) : sys :=
-  exec (exec sys_empty (fst c)) (map fst (firstn n (snd c))).
+Definition model_cstate (c : trace_case) (n : nat) : cstate :=
+  cfs_exec (cfs_exec cfs_start (fst c)) (map fst (firstn n (snd c))).
+Definition model_state (c : trace_case) (n : nat) : sys := fst (model_cstate c n).
 Definition model_out (c : trace_case) (n : nat)
-  : list resp * list (N * option sel_obs) * list (N * box_obs) :=
-  let sy := model_state c n in
+  : list resp * list (N * option sel_obs) * list (N * box_obs) * list (N * list (N * flags)) :=
+  let '(sy, cfs) := model_cstate c n in
   match nth_error (snd c) n with
-  | None => ([], [], [])
+  | None => ([], [], [], [])
   | Some (l, o) =>
     let '(sy', out) := step sy l in
+    let cfs' := cfs_next sy l sy' out cfs in
     (out, map (fun so => (fst so, option_map sel_obs_of (sel_of sy' (fst so)))) (ob_sels o),
-     map (fun kb => (fst kb, box_obs_of (snd kb))) (sy_boxes sy'))
+     map (fun kb => (fst kb, box_obs_of (snd kb))) (sy_boxes sy'),
+     map (fun so => (fst so, map (fun uf => (fst uf, norec (snd uf))) (cfs' (fst so)))) (ob_bel o))
   end.
 
-(* which comparison fails at step n: (label_ok, responses, selections, mailboxes) *)
-Definition diag (c : trace_case) (n : nat) : bool * bool * bool * bool :=
-  let sy := model_state c n in
+(* which comparison fails at step n: (label_ok, responses, selections, mailboxes, beliefs) *)
+Definition diag (c : trace_case) (n : nat) : bool * bool * bool * bool * bool :=
+  let '(sy, cfs) := model_cstate c n in
   match nth_error (snd c) n with
-  | None => (true, true, true, true)
+  | None => (true, true, true, true, true)
   | Some (l, o) =>
     let '(sy', out) := step sy l in
     (label_ok sy l, eqb_list resp_eqb out (ob_out o), chk_sels sy' (ob_sels o),
-     chk_boxes sy' (ob_boxes o))
+     chk_boxes sy' (ob_boxes o), chk_bel (cfs_next sy l sy' out cfs) (ob_bel o))
   end.
